@@ -25,7 +25,8 @@ of the operation.
     per-member layout:
        read_<struct>  = insideRW += 1; result[m] = read_<m>() for all m; finally insideRW -= 1,
                         and if a member failed: setattr(struct, dict(struct, **result))
-       write_<struct> = the same with write_<m>(value[m])
+       write_<struct> = the same with write_<m>(value[m]), but (repaired, C04) nothing is re-assigned when the FIRST member
+                        failed (`0 < len(result)`): nothing was written then
 -/
 namespace Frappy.ExtParams
 
@@ -239,10 +240,17 @@ def writeIter (cfg : Cfg) (v : Dict) (w : String → WRes Val) (l : Loop) (m : S
 /-- the wrapper of the generated struct method ends with an exception: a read wrapper announces it, a write wrapper does not -/
 def loopError (isRead : Bool) (s : St) : St := if isRead then structError s else s
 
+/-- the condition of the `finally` clause once the loop has ended early: `read_<struct>` re-synchronises whenever
+`len(result) < len(flist)` (147), `write_<struct>` only after a failure IN BETWEEN, `0 < len(result) < len(funclist)` (166):
+when the first member refused nothing was written and nothing is to be made consistent -/
+def resyncs (isRead : Bool) (result : Dict) : Bool := isRead || !result.isEmpty
+
 /-- what follows the loop: `finally` (re-synchronise after a failure), then the wrapper -/
 def finishLoop (cfg : Cfg) (isRead : Bool) (l : Loop) : St :=
   if l.result.length < cfg.members.length then
-    failedExc l.exc (loopError isRead (assignStruct cfg (Dict.merge l.st.struct l.result) l.st))
+    if resyncs isRead l.result then
+      failedExc l.exc (loopError isRead (assignStruct cfg (Dict.merge l.st.struct l.result) l.st))
+    else failedExc l.exc l.st
   else if wf cfg l.result then fine (announceStruct cfg l.result l.st)
   else failed (loopError isRead l.st)
 
@@ -346,7 +354,9 @@ def finishLoopO (cfg : Cfg) (isRead : Bool) (ov : Overlap) (l : Loop) : St :=
   let s1 := interrupt cfg ov.atEnd l.st
   let s2 := interrupt cfg ov.afterRead s1
   if l.result.length < cfg.members.length then
-    failedExc l.exc (loopError isRead (interrupt cfg ov.beforeErr (assignStruct cfg (Dict.merge s1.struct l.result) s2)))
+    if resyncs isRead l.result then
+      failedExc l.exc (loopError isRead (interrupt cfg ov.beforeErr (assignStruct cfg (Dict.merge s1.struct l.result) s2)))
+    else failedExc l.exc s2
   else if wf cfg l.result then fine (announceStruct cfg l.result s2)
   else failed (loopError isRead (interrupt cfg ov.beforeErr s2))
 
